@@ -1,15 +1,24 @@
 From Coq Require Import List ZArith String Ascii Bool NArith Lia.
 Import ListNotations.
-From Bexpr Require Import Base Ast Unicode Peg Typing Actions GoGrammar Sem Term Lex Lex2 Lex3 Calc Calc2 Skel Top Atoms StrLit AtomsEq Spell C07 Ptr.
+From Bexpr Require Import Base Ast Unicode Peg Typing Actions GoGrammar Sem Term Lex Lex2 Lex3 Calc Calc2 Skel Top Atoms StrLit AtomsEq Spell C07 Ptr KwMiss.
 Open Scope string_scope.
 
 (* A selector in any spelling, as one abstraction: its text, the value the Selector rule reads, and the head facts atoms need. *)
 Definition sstop (K : list cell) : Prop := seg_stop K /\ no_dot_no_bracket K.
 
+(* s_nn: the text is not the beginning of `not <expression>` (for a name: it is not the keyword `not` itself) *)
 Record selr := {
   s_txt : list cell; s_val : selector;
   s_spec : forall K, sstop K -> spec (PRef "Selector") (app s_txt K) (VSel s_val) K;
-  s_head : exists c r, s_txt = c :: r /\ crune c <> 40%Z /\ crune c <> 110%Z /\ class_match cls_ws (crune c) = false }.
+  s_head : exists c r, s_txt = c :: r /\ crune c <> 40%Z /\ crune c <> 61%Z /\ crune c <> 33%Z /\ class_match cls_ws (crune c) = false;
+  s_nn : forall K, sstop K -> fspecj not_alt1 (app s_txt K) }.
+
+Lemma id_head_tail z : class_match cls_id_head z = true -> class_match cls_id_tail z = true.
+Proof.
+  unfold class_match. cbn. rewrite !orb_false_r. intros H.
+  apply orb_true_iff in H. destruct H as [H|H]; apply andb_true_iff in H; destruct H as [H1 H2];
+    repeat (apply orb_true_iff; (left; apply andb_true_iff; split; assumption) || right); fail.
+Qed.
 
 Lemma segs_cells_app segs k1 k2 : app (segs_cells segs k1) k2 = segs_cells segs (app k1 k2).
 Proof.
@@ -17,16 +26,59 @@ Proof.
   destruct sg; cbn [seg_cells]; repeat (cbn [app]; rewrite <- ?app_assoc); rewrite IH; reflexivity.
 Qed.
 
-(* bexpr spellings: name, then parts each as .name / .digits / ["lit"] *)
+Lemma id_head_not_sym z : class_match cls_id_head z = true -> z <> 61%Z /\ z <> 33%Z.
+Proof.
+  unfold class_match. cbn. rewrite !orb_false_r. intros H. split; intros E; rewrite E in H; cbn in H; discriminate.
+Qed.
+
+Lemma seg_cells_id_stop segs K : Forall seg_ok segs -> seg_stop K -> id_stop (segs_cells segs K).
+Proof.
+  intros Hs Hk. destruct segs as [|sg r]; [exact (proj1 Hk)|]. cbn [segs_cells].
+  destruct sg as [c0 cs0|d ds|lb w1 q cs0 q' w2 rb lit]; cbn [seg_cells]; cbn; try reflexivity.
+  inversion Hs as [|? ? Hsg _]; subst. destruct Hsg as [Hlb _]. rewrite Hlb. reflexivity.
+Qed.
+
+Lemma seg_cells_not_ws sg r K x rest : seg_ok sg -> segs_cells (sg :: r) K = x :: rest -> ~ is_ws x.
+Proof.
+  intros Hsg E Hx. cbn [segs_cells] in E.
+  destruct sg as [c0 cs0|d ds|lb w1 q cs0 q' w2 rb lit]; cbn [seg_cells] in E; inversion E; subst x.
+  - vm_compute in Hx. discriminate.
+  - vm_compute in Hx. discriminate.
+  - destruct Hsg as [Hlb _]. unfold is_ws in Hx. rewrite Hlb in Hx. vm_compute in Hx. discriminate.
+Qed.
+
+(* a name followed by parts and a continuation against a keyword: the text is not the keyword followed by a blank unless the name
+   IS the keyword and nothing is selected below it *)
+Lemma mixed_vs_kw kw c cs segs K : Forall id_rune kw ->
+  class_match cls_id_head (crune c) = true -> id_tail_ok cs -> Forall seg_ok segs -> seg_stop K ->
+  map crune (c :: cs) <> kw \/ segs <> [] ->
+  all_valid (c :: app cs (segs_cells segs K)) -> kw_miss kw (c :: app cs (segs_cells segs K)).
+Proof.
+  intros Hkw Hh Ht Hs Hk1 Hn Hv.
+  change (c :: app cs (segs_cells segs K)) with (app (c :: cs) (segs_cells segs K)) in *.
+  assert (Hcs : Forall (fun x => id_rune (crune x)) (c :: cs)).
+  { constructor; [exact (id_head_tail _ Hh)| exact Ht]. }
+  destruct (ident_vs_kw _ Hkw (c :: cs) (segs_cells segs K) Hcs (seg_cells_id_stop segs K Hs Hk1) Hv)
+    as [H|[Hm [x [r [E Hx]]]]]; [exact H|].
+  exfalso. destruct Hn as [Hn|Hn]; [exact (Hn Hm)|].
+  destruct segs as [|sg rs]; [contradiction|].
+  exact (seg_cells_not_ws sg rs K x r (Forall_inv Hs) E Hx).
+Qed.
+
+(* bexpr spellings: name, then parts each as .name / .digits / ["lit"]; the name alone is not the keyword `not` *)
 Definition of_mixed (c : cell) (cs : list cell) (segs : list seg)
-  (Hh : class_match cls_id_head (crune c) = true) (Ht : id_tail_ok cs) (Hs : Forall seg_ok segs) (Hn : crune c <> 110%Z) : selr.
+  (Hh : class_match cls_id_head (crune c) = true) (Ht : id_tail_ok cs) (Hs : Forall seg_ok segs)
+  (Hn : map crune (c :: cs) <> [110; 111; 116]%Z \/ segs <> []) : selr.
 Proof.
   refine {| s_txt := c :: app cs (segs_cells segs []);
             s_val := {| stype := SelBexpr; spath := cells_str (c :: cs) :: map seg_part segs |} |}.
   - intros K [Hk1 Hk2]. cbn [app]. rewrite <- app_assoc, segs_cells_app. cbn [app].
     exact (selector_mixed c cs segs K Hh Ht Hs Hk1 Hk2).
   - exists c, (app cs (segs_cells segs [])). split; [reflexivity|].
-    destruct (head_letter _ Hh) as [H1 H2]. auto.
+    destruct (head_letter _ Hh) as [H1 H2]. destruct (id_head_not_sym _ Hh) as [H3 H4]. auto.
+  - intros K [Hk1 Hk2]. cbn [app]. rewrite <- app_assoc, segs_cells_app. cbn [app].
+    apply faction. apply fseq. apply kw_miss_fseqs. intros Hv.
+    apply mixed_vs_kw; try assumption. repeat constructor.
 Defined.
 
 Lemma psegs_cells_app ps k1 k2 : app (psegs_cells ps k1) k2 = psegs_cells ps (app k1 k2).
@@ -41,17 +93,18 @@ Proof.
   - intros K _. cbn [app]. rewrite psegs_cells_app. cbn [app].
     exact (selector_pointer_parts q ps q' K parts Hq Hq' Hok Hne E).
   - exists q, (psegs_cells ps [q']). split; [reflexivity|]. rewrite Hq. repeat split; try discriminate; try reflexivity.
+  - intros K _. cbn [app]. apply faction. apply fseq. apply fseqs_here.
+    refine (fails_f (head_not 110) _ _ (fails_lit 110 [111; 116]%Z) _). cbn. rewrite Hq. discriminate.
 Defined.
 
 Lemma s_head_not_paren sr k : head_not 40 (app (s_txt sr) k).
 Proof. destruct (s_head sr) as [c [r [E [H1 _]]]]. rewrite E. exact H1. Qed.
 Lemma s_head_free sr k : ws_free (app (s_txt sr) k).
-Proof. destruct (s_head sr) as [c [r [E [_ [_ H3]]]]]. rewrite E. exact H3. Qed.
-Lemma s_head_not_not sr k : fspecj not_alt1 (app (s_txt sr) k).
-Proof.
-  destruct (s_head sr) as [c [r [E [_ [H2 _]]]]]. rewrite E. apply faction. apply fseq. apply fseqs_here.
-  exact (fails_f (head_not 110) _ (app (c :: r) k) (fails_lit 110 [111; 116]%Z) H2).
-Qed.
+Proof. destruct (s_head sr) as [c [r [E [_ [_ [_ H3]]]]]]. rewrite E. exact H3. Qed.
+Lemma s_head_not_not sr k : sstop k -> fspecj not_alt1 (app (s_txt sr) k).
+Proof. exact (s_nn sr k). Qed.
+Lemma s_head_not_sym sr k : head_not 61 (app (s_txt sr) k) /\ head_not 33 (app (s_txt sr) k).
+Proof. destruct (s_head sr) as [c [r [E [_ [H2 [H3 _]]]]]]. rewrite E. split; assumption. Qed.
 Lemma sstop_ws0 c k : is_ws c -> sstop (c :: k).
 Proof.
   intros H. destruct (ws_rune c H) as [E|[E|[E|E]]]; repeat split; cbn; rewrite E; try reflexivity; discriminate.
